@@ -269,12 +269,12 @@ Print Assumptions C13_ignore_dependents_partial.
 (* THE FULL STATEMENT for dependents (added once the dispatcher invariant `recd` of Proofs/DispatchInv.v
    was available: every finished dependency's outcome is recorded in the dependent's bad_deps /
    ignored_deps before the dependent is handed to the runner): in EVERY run -- serial, or parallel
-   under any schedule, worker count and flavour -- a task that declares (task_dep, implicit file
-   dependency, calc_dep or setup-task) a task that was reported as ignored in that run is never executed. *)
+   under any schedule, worker count and flavour -- a task that effectively depends (task_dep, implicit file
+   dependency, calc_dep, setup-task, or anything returned by its calc_dep tasks) on a task that was reported as ignored in that run is never executed. *)
 Theorem C13_ignored_dependency_never_started_serial :
   forall tasks wake_rank calc_rank continue_ always fuel selection t x,
     let tr := fst (Runner.run_serial tasks wake_rank calc_rank continue_ always fuel selection) in
-    In x (RunnerP.static_deps tasks t) -> In (Runner.ESkipIgnore x) tr -> ~ In (Runner.EExecute t) tr.
+    RunnerP.eff_dep tasks t x -> In (Runner.ESkipIgnore x) tr -> ~ In (Runner.EExecute t) tr.
 Proof.
   intros tasks wake_rank calc_rank continue_ always fuel selection t x tr Hx Hi.
   apply (RunnerP.serial_bad_dep_never_runs tasks wake_rank calc_rank continue_ always fuel selection t x (Runner.ESkipIgnore x)); auto.
@@ -285,7 +285,7 @@ Print Assumptions C13_ignored_dependency_never_started_serial.
 Theorem C13_ignored_dependency_never_started_parallel :
   forall tasks wake_rank calc_rank continue_ always proc fuel nprocs sched selection t w x,
     let log := fst (Parallel.run_parallel tasks wake_rank calc_rank continue_ always proc fuel nprocs sched selection) in
-    In x (RunnerP.static_deps tasks t) -> In (Parallel.PE (Runner.ESkipIgnore x)) log -> ~ In (Parallel.PStart t w) log.
+    RunnerP.eff_dep tasks t x -> In (Parallel.PE (Runner.ESkipIgnore x)) log -> ~ In (Parallel.PStart t w) log.
 Proof.
   intros tasks wake_rank calc_rank continue_ always proc fuel nprocs sched selection t w x log Hx Hi.
   apply (ParallelP.parallel_bad_dep_never_runs tasks wake_rank calc_rank continue_ always proc fuel nprocs sched selection t w x (Runner.ESkipIgnore x)); auto.
